@@ -483,3 +483,33 @@ func stripAmbient(jail string, modelFS string) string {
 // color.Output accessors (the dry-run report of Mkdir goes to this package-level writer)
 func colorOutput() io.Writer     { return color.Output }
 func setColorOutput(w io.Writer) { color.Output = w }
+
+// otherUses: earlier and concurrent uses of the library that must not matter to anybody else's result –
+// every entry point once, simple and massive, real and dry, on valid input in a private jail.
+// Called before every suite and between cases (state that a call leaves behind in the package would show).
+func otherUses() {
+	jail := newJail()
+	defer os.RemoveAll(jail)
+	doc := []byte("- w\n    - x.go\n    - y\n        - z\n- v\n")
+	t := filepath.Join(jail, "t")
+	var b lockedBuf
+	for _, massive := range []bool{false, true} {
+		var o []gtree.Option
+		if massive {
+			o = append(o, gtree.WithMassive(context.Background()))
+		}
+		tt := t + ifs(massive, "m", "s")
+		gtree.MkdirFromMarkdown(bytes.NewReader(doc), append(o, gtree.WithTargetDir(tt), gtree.WithFileExtensions([]string{".go"}))...)
+		gtree.VerifyFromMarkdown(bytes.NewReader(doc), append(o, gtree.WithTargetDir(tt), gtree.WithStrictVerify())...)
+		gtree.OutputFromMarkdown(&b, bytes.NewReader(doc), o...)
+		gtree.OutputFromMarkdown(&b, bytes.NewReader(doc), append(o, gtree.WithEncodeYAML())...)
+		gtree.WalkFromMarkdown(bytes.NewReader(doc), func(*gtree.WalkerNode) error { return nil }, o...)
+		r := gtree.NewRoot("w")
+		r.Add("x.go")
+		r.Add("y").Add("z")
+		gtree.MkdirFromRoot(r, append(o, gtree.WithTargetDir(tt+"r"), gtree.WithFileExtensions([]string{".go"}))...)
+		gtree.VerifyFromRoot(r, append(o, gtree.WithTargetDir(tt+"r"))...)
+		gtree.OutputFromRoot(&b, r, o...)
+		gtree.OutputFromRoot(&b, r, append(o, gtree.WithEncodeJSON())...)
+	}
+}
